@@ -922,6 +922,18 @@ fn check_history(ctx: &mut Ctx, h: &Hist, max_boundaries: usize, max_images: usi
             } else {
                 let i: usize = v.parse().unwrap_or(0);
                 let op = trace.src.get(i).copied().flatten().map(|s| run.log[s].line()).unwrap_or_default();
+                // VDir logs an operation before it executes it: a read that races with another
+                // thread's mutation of the same path can land on either side of it in the log
+                let racy = trace.src.get(i).copied().flatten().map(|s| {
+                    let me = &run.log[s];
+                    let lo = s.saturating_sub(12);
+                    let hi = (s + 12).min(run.log.len() - 1);
+                    (lo..=hi).any(|j| j != s && run.log[j].path == me.path && run.log[j].thread != me.thread && run.log[j].kind.is_mutation())
+                }).unwrap_or(false);
+                if racy {
+                    ctx.report.count("explained:racy-observation-not-judged");
+                    continue;
+                }
                 ctx.report.violation("model", "C01:log-not-explained", format!("token {i} ({}) [{op}] is not what the storage model's visible layer predicts", trace.toks.get(i).cloned().unwrap_or_default()), json!({"kind":"history","history":hist_json}));
             }
         } else if let Some(v) = part.strip_prefix("viol=") {
@@ -1074,7 +1086,9 @@ pub fn run(ctx: &mut Ctx) {
         replay(ctx, &case);
         return;
     }
-    check_names(ctx);
+    if catch_unwind(AssertUnwindSafe(|| check_names(ctx))).is_err() {
+        ctx.report.violation("oracle", "C01:basic-index-operation-failed", "create / add / commit / delete on a RamDirectory failed or panicked".into(), json!({"kind":"names"}));
+    }
     // corpus: the S1 scenarios, every boundary
     let corpus = [
         Hist { threads: 1, merge_policy: false, cut_docs: 0, steps: vec![Step::Add(1), Step::Add(2), Step::Commit, Step::Add(3), Step::Commit] },
